@@ -165,7 +165,9 @@ class StmtMixin:
                 if k == "raise":
                     out.append(("raise", vals, s))
                     continue
-                o, key = ops.strip_opt(vals[0]), vals[1]
+                o, key = self.unopt(s, vals[0]), vals[1]
+                if isinstance(o, Opt) or o is None:
+                    raise Unsupported("item assignment on a possibly-None value")
                 out.extend(self.setitem(o, key, v, s))
             return out
         raise Unsupported(f"assignment target {ast.unparse(target)}")
